@@ -341,7 +341,7 @@ def run(tier):
     try:
         # attribute interleavings from forest states of the 5-label symlink universe (a subset reachable by parent moves)
         states = forest.discover(pool, "symmix", 5, {"read": False, "nonnode": False, "extras": False, "L": 1}, False)
-        sel = states if tier == "thorough" else states[:: max(1, len(states) // 120)]
+        sel = states[::3] if tier == "thorough" else states[:: max(1, len(states) // 120)]
         depth = 2
         jobs = [(MOD, "job_attr", {"states": s, "depth": depth, "deep_from_initial": False}) for s in core.shard(sel, core.NPROC * 4)]
         jobs.append((MOD, "job_attr", {"states": [], "depth": 2, "deep_from_initial": True}))
